@@ -7,7 +7,7 @@ P="$1"; ID="$2"; shift 2; CHECKS="${*:-$P}"
 WT=/tmp/wt-$P; OUT=/tmp/out-$P; DEST=/verif/seeded/$ID
 [ -f $OUT/patch.diff ] || { echo "no patch"; exit 3; }
 cd $WT || exit 3
-git stash -q 2>/dev/null; git checkout -q -- . ; git apply $OUT/patch.diff || { echo "patch does not apply to clean worktree"; exit 3; }
+git checkout -q -- . ; git clean -fdq fakesnow 2>/dev/null; git apply $OUT/patch.diff || { echo "patch does not apply to clean worktree"; exit 3; }
 T=$(PYTHONPATH=$WT timeout 900 /venv/bin/python -m pytest -q -p no:cacheprovider 2>&1 | tail -1)
 PYTHONPATH=$WT timeout 300 /venv/bin/python $OUT/demo.py > /tmp/demo_with.txt 2>&1; RC_WITH=$?
 git checkout -q -- . ; git clean -fdq fakesnow 2>/dev/null
